@@ -61,9 +61,10 @@ type c11Case struct {
 	Q      quote `json:"quote"`
 	Rel    int   `json:"rel"` // in-out relative to the reference fee: 0 fee-1, 1 fee, 2 fee+1, 3 out>in, 4 equal, 5 ample
 	OnEst  bool  `json:"on_estimate"`
-	OutRep int   `json:"out_rep,omitempty"`    // >0: the first output kind repeated this many times
-	InRep  int   `json:"in_rep,omitempty"`     // >0: this many inputs
-	QForm  int   `json:"quote_form,omitempty"` // how the quote object is put together, see quote.libForm
+	OutRep int   `json:"out_rep,omitempty"`     // >0: the first output kind repeated this many times
+	InRep  int   `json:"in_rep,omitempty"`      // >0: this many inputs
+	QForm  int   `json:"quote_form,omitempty"`  // how the quote object is put together, see quote.libForm
+	Huge   bool  `json:"huge_output,omitempty"` // the first output carries 2^64-4 satoshis, the inputs 1000
 }
 
 func c11Build(c c11Case) *txref.Tx {
@@ -80,6 +81,9 @@ func c11Build(c c11Case) *txref.Tx {
 	nin := c.NIn
 	if c.InRep > 0 {
 		nin = c.InRep
+	}
+	if c.Huge && len(t.Outs) > 0 {
+		t.Outs[0].Sats = ^uint64(0) - 3
 	}
 	for i := 0; i < nin; i++ {
 		in := p2pkhIn(i, 0)
@@ -121,6 +125,9 @@ func c11Check(c c11Case) (fs []rep.Finding) {
 		in = new(big.Int).Set(out)
 	default:
 		in = new(big.Int).Add(out, big.NewInt(1_000_000_000))
+	}
+	if c.Huge {
+		in = big.NewInt(1000)
 	}
 	if in.Sign() < 0 || len(ref.Ins) == 0 {
 		in = big.NewInt(0)
@@ -299,7 +306,7 @@ func c11ErrCheck(c c11Err) (fs []rep.Finding) {
 
 func init() {
 	p := register(&Prop{ID: "C11", Level: "exploration",
-		Rule: "exhaustive: (accounting) every multiset-ordered choice of <=2 (quick) / <=3 (thorough) outputs from 13 script kinds (P2PKH, OP_RETURN alone/empty/1/75/76-byte, OP_FALSE OP_RETURN with 65536-byte payload and bare, `00`, `00 51 6a`, empty, OP_RETURN not first) x inputs 0..3 x signing state (none/all/first/short scripts) x 11 fee quotes (independent std/data rates incl. >1 sat/byte, non-dyadic rates, zero) x in-out placed at {fee-1, fee, fee+1, out>in, equal, ample} relative to the big-integer reference fee of the actual and of the estimated size: TotalBytes=len(bytes)=Std+Data, fee = floor+floor, predicates exact; (signed) 8 keys x nIn 1..3 x nOut 0..2 x every subset of inputs pre-signed x plain/inscription spent script, paying to the hash of the compressed key, of the uncompressed form of the same key, or of another key: EstimateSize >= size after FillAllInputs; (counts) 252/253/254 outputs with 0..2 inputs and 252/253/254 inputs with 0..2 outputs x quotes x fee relations; (errors) every position x 7 missing/unsupported spent scripts x signed/unsigned: every estimator returns an error; (quote forms) the same quotes assembled through 6 other call sequences (Fee objects labelled with the other type, unlabelled, through FeeQuotes.UpdateMinerFees, update of existing entries, relabelled copy, a fresh default quote after another default quote's Fee objects were changed in place); (builders) outputs built by AddOpReturnOutput / AddOpReturnPartsOutput / CreateOpReturnOutput for item lengths {1,2,75,76,255,256,65535,65536} (single and pairs) and AddHashPuzzleOutput: script equals the reference layout and is counted as data / standard bytes accordingly. distinct_nontrivial = distinct (tx bytes, quote, relation) triples",
+		Rule: "exhaustive: (accounting) every multiset-ordered choice of <=2 (quick) / <=3 (thorough) outputs from 13 script kinds (P2PKH, OP_RETURN alone/empty/1/75/76-byte, OP_FALSE OP_RETURN with 65536-byte payload and bare, `00`, `00 51 6a`, empty, OP_RETURN not first) x inputs 0..3 x signing state (none/all/first/short scripts) x 11 fee quotes (independent std/data rates incl. >1 sat/byte, non-dyadic rates, zero) x in-out placed at {fee-1, fee, fee+1, out>in, equal, ample} relative to the big-integer reference fee of the actual and of the estimated size: TotalBytes=len(bytes)=Std+Data, fee = floor+floor, predicates exact; (signed) 8 keys x nIn 1..3 x nOut 0..2 x every subset of inputs pre-signed x plain/inscription spent script, paying to the hash of the compressed key, of the uncompressed form of the same key, or of another key: EstimateSize >= size after FillAllInputs; (counts) 252/253/254 outputs with 0..2 inputs and 252/253/254 inputs with 0..2 outputs x quotes x fee relations; (errors) every position x 7 missing/unsupported spent scripts x signed/unsigned: every estimator returns an error; (wrap) outputs totalling 2^64-4 and more against inputs of 1000; (quote forms) the same quotes assembled through 6 other call sequences (Fee objects labelled with the other type, unlabelled, through FeeQuotes.UpdateMinerFees, update of existing entries, relabelled copy, a fresh default quote after another default quote's Fee objects were changed in place); (builders) outputs built by AddOpReturnOutput / AddOpReturnPartsOutput / CreateOpReturnOutput for item lengths {1,2,75,76,255,256,65535,65536} (single and pairs) and AddHashPuzzleOutput: script equals the reference layout and is counted as data / standard bytes accordingly. distinct_nontrivial = distinct (tx bytes, quote, relation) triples",
 	})
 	sA := NewSpace(p, "accounting", c11Check)
 	sS := NewSpace(p, "signed", c11SignCheck)
@@ -351,6 +358,16 @@ func init() {
 		})
 		// counts on both sides of the varint boundary, independently for inputs and outputs
 		var bc []c11Case
+		// outputs whose total is within a fee of 2^64 (sums that wrap must not make them look paid)
+		for _, os := range [][]int{{0}, {0, 0}, {3, 0}, {0, 5}} {
+			for nin := 1; nin <= 2; nin++ {
+				for _, q := range c11Quotes {
+					for _, sg := range []int{0, 1, 2} {
+						bc = append(bc, c11Case{Outs: os, NIn: nin, Signed: sg, Q: q, Rel: 3, Huge: true})
+					}
+				}
+			}
+		}
 		// the same quotes put together through other call sequences
 		for _, os := range [][]int{{}, {0}, {3}, {0, 5}, {5, 0, 3}, {8, 0}} {
 			for nin := 1; nin <= 2; nin++ {
